@@ -166,7 +166,18 @@ package transaction
 // the sender's balance, the balance is read again (ghost flag bal_stale: set by Reset, cleared by
 // GetBalance, must be clear at SetBalance and at every loop head)
 // ---------------------------------------------------------------------------
-//@ property C15
+// C16: the receipt of a failed transaction carries no event logs and no BTP messages, and a
+// transaction whose execution succeeded but which cannot pay its fee is rolled back to the world
+// snapshot taken before it (ghosts exec_ok: DoExecute reported success; reset_snap/reset_count: see
+// contract/zz_contracts_verif.go)
+//@ smt all (declare-ghost exec_ok Bool)
+//@ smt all (declare-ghost exec_resets Int)
+//@ func (th *transactionHandler) DoExecute(cc, estimate, isPatch) (status, score, err)
+//@   trusted
+//@   modifies *
+//@   opt ghost:exec_ok status == nil
+//@   opt ghost:exec_resets ghost(reset_count)
+//@ property C15 C16
 //@ func (th *transactionHandler) Execute(ctx, wcs, estimate) (rct, err)
 //@   arith int
 //@   nosafety
@@ -176,4 +187,12 @@ package transaction
 //@   opt volatile bal, bal_stale
 //@   requires th != nil && ctx != nil
 //@   callpre SetBalance: !ghost(bal_stale)
+//@   callpre GetEventLogs: status == nil
+//@   callpre GetBTPMessages: status == nil
+//@   callpre SetReason: e == status && (ghost(exec_ok) && status != nil ==> ghost(reset_snap) == wcs && ghost(reset_count) > ghost(exec_resets))
+//@   callpre SetResult: !ghost(exec_ok) ==> caller_status != nil
 //@   loop 0: invariant !ghost(bal_stale)
+//@   loop 0: invariant ghost(exec_ok) && status != nil ==> ghost(reset_snap) == wcs
+//@   loop 0: invariant ghost(exec_ok) && status != nil ==> ghost(reset_count) > ghost(exec_resets)
+//@   loop 0: invariant !ghost(exec_ok) ==> status != nil
+//@   loop 0: invariant ghost(reset_count) >= ghost(exec_resets)
